@@ -8,19 +8,19 @@
    with items its sits at position ps = (root, keys) of the forest -- a root or anywhere below one; [clean its]: no item is the
    MISSING_VALUE marker; [anc_clean st ps]: no list above the target holds the marker (true of every forest built from
    literals and driven by plain calls; the marker only gets into a list through the extensions under notify_on_change(False));
-   [wfs]: C01's invariant; [permits sc fl]: the target is not (treated as) sealed and writable through accessors (the
+   [wfs] / [WFI] = [WF]: C01's invariant (stored parent and path = actual place; with I: node ids pairwise distinct);
+   [permits sc fl]: the target is not (treated as) sealed and writable through accessors (the
    permission side is C08's).  A plain argument is a None / bool / int / str leaf or a literal list / dict of such values
    ([vplain], its value [pval]).
 
    The _partial theorems are the full refinement statement for a container ANYWHERE in a well-formed forest driven by calls
    with plain Python arguments.  What they leave to the correspondence (model vs pg.List / pg.Dict on generated histories,
    every step): arguments that are existing symbolic nodes (adopted or copied at write time -- Python would alias), opaque
-   objects as written values, l * n and l *= n on lists that hold containers, rebind with several / multi-key paths, d | m
-   and m | d. *)
+   objects as written values, rebind with several / multi-key paths, d | m and m | d. *)
 From Coq Require Import ZArith NArith List Bool.
 From PG Require Import Common.Tactics Model.SymCoreDefs Model.SymCoreOps Model.SymCoreSpec Model.SymCoreC02
-     Proofs.SymCoreWF Proofs.SymCoreC02Base Proofs.SymCoreC02Read Proofs.SymCoreC02Frame Proofs.SymCoreC02Prim
-     Proofs.SymCoreC02List Proofs.SymCoreC02Dict Proofs.SymCoreC02Step Proofs.SymCoreC02Ext Proofs.PyListFacts
+     Proofs.SymCoreWF Proofs.SymCoreIds Proofs.SymCoreC02Base Proofs.SymCoreC02Read Proofs.SymCoreC02Frame Proofs.SymCoreC02Prim
+     Proofs.SymCoreC02List Proofs.SymCoreC02Items Proofs.SymCoreC02Dict Proofs.SymCoreC02Step Proofs.SymCoreC02Ext Proofs.PyListFacts
      Proofs.SymCoreC02Slice Proofs.SymCoreC02WF Proofs.SymCoreC02Examples Proofs.SymCoreC02Summary Proofs.SymCoreC02Init.
 From PG Require Model.PyList Model.PyDict.
 Import ListNotations.
@@ -43,8 +43,8 @@ Print Assumptions C02_spec_slice_positions_in_bounds.
    error class (IndexError, KeyError, TypeError, ValueError); the value of the call agrees ([ret_agrees]: nothing, the removed
    item by identity, or a new root list with the erased items Python returns); the invariants hold again afterwards *)
 Theorem C02_refines_python_list_partial : forall q ps tid pa fl, no_quirks q -> forall st its sc o lo,
-  wfs st -> at_is st ps tid KList pa fl its -> clean its -> anc_clean st ps -> permits sc fl ->
-  vplain_lop (evals its) o = true -> vlop_of o = Some lo ->
+  WFI st -> at_is st ps tid KList pa fl its -> clean its -> anc_clean st ps -> permits sc fl ->
+  vplain_lop o = true -> vlop_of o = Some lo ->
   exists its',
     at_is (fst (step q st (mkSop sc ps o))) ps tid KList pa fl its' /\ clean its' /\ anc_clean (fst (step q st (mkSop sc ps o))) ps /\
     evals its' = PyList.lstate pv_pyeq (evals its) lo /\
@@ -70,9 +70,9 @@ Print Assumptions C02_refines_python_dict_partial.
 (* slice assignment l[a:b:c] = vs and slice deletion del l[a:b:c], any start / stop / step (also None, negative, out of range, 0);
    the forest is well-formed again afterwards (C01's invariant for the operations the base catalogue lacked) *)
 Theorem C02_refines_python_slices_partial : forall q ps tid pa fl st its sc x lo,
-  wfs st -> at_is st ps tid KList pa fl its -> clean its -> anc_clean st ps -> permits sc fl ->
+  WFI st -> at_is st ps tid KList pa fl its -> clean its -> anc_clean st ps -> permits sc fl ->
   vplain_xop x = true -> vxlop_of x = Some lo ->
-  wfs (fst (step2 q st (Ext sc ps x))) /\
+  WFI (fst (step2 q st (Ext sc ps x))) /\
   exists its',
     at_is (fst (step2 q st (Ext sc ps x))) ps tid KList pa fl its' /\ clean its' /\ anc_clean (fst (step2 q st (Ext sc ps x))) ps /\
     evals its' = PyList.lstate pv_pyeq (evals its) lo /\
@@ -84,9 +84,9 @@ Print Assumptions C02_refines_python_slices_partial.
 (* lists: base catalogue and slice operations interleaved in any order; [lhist2_ok] only says that every call has plain
    arguments and is let through; [lhist2_py] is the plain list driven by the same calls *)
 Theorem C02_history_list_partial : forall q ps tid pa fl, no_quirks q -> forall h st its,
-  wfs st -> at_is st ps tid KList pa fl its -> clean its -> anc_clean st ps -> lhist2_ok fl (evals its) h ->
+  WF st -> at_is st ps tid KList pa fl its -> clean its -> anc_clean st ps -> lhist2_ok fl (evals its) h ->
   option_map erase (get_at (run_ops2 q st (on_pos2 ps h)) ps) = Some (plist (lhist2_py (evals its) h)) /\
-  wfs (run_ops2 q st (on_pos2 ps h)).
+  WF (run_ops2 q st (on_pos2 ps h)).
 Proof. exact c02_history_list_proof. Qed.
 Print Assumptions C02_history_list_partial.
 
@@ -117,9 +117,9 @@ Print Assumptions C02_history_of_constructed_dict_partial.
 (* the hypotheses are satisfiable: a constructed forest; a nine-call history on a root list, a five-call history on a root
    dict, a three-call history on a dict stored inside the list *)
 Theorem C02_history_hypotheses_example :
-  wfs ex_state /\
+  WF ex_state /\
   (at_is ex_state (0%nat, []) 1%N KList None default_flags ex_list_items /\ clean ex_list_items /\ anc_clean ex_state (0%nat, []) /\
-   lhist2_ok default_flags (evals ex_list_items) ex_list_history) /\
+   lhist2_ok default_flags (evals ex_list_items) ex_list_history /\ lhist2_ok default_flags (evals ex_list_items) ex_mul_history) /\
   (at_is ex_state (1%nat, []) 3%N KDict None default_flags ex_dict_items /\ clean ex_dict_items /\ anc_clean ex_state (1%nat, []) /\
    dhist_ok default_flags (eitems ex_dict_items) ex_dict_history) /\
   (at_is ex_state ex_nested_pos 2%N KDict (Some 1%N) default_flags ex_nested_items /\ clean ex_nested_items /\
